@@ -257,32 +257,44 @@ let run_case (v : variant) (line : string) (impl : string option) : string =
               | _ -> emit "badop") ops
           end else begin
             let s = ref (comp_init p0) in
+            let db = ref [] in
+            let do_cop o = let (s', out) = cstep v c !s o in db := db_step v c !s o out !db; s := s'; out in
             List.iteri (fun i tok ->
               match split_on tok ":" with
               | ["A"; sid; k; ok] ->
-                let (s', o) = cstep v c !s (CActivate (nn sid, nn k, ok = "1", obs i)) in s := s'; emit (show_out_dp o)
+                let o = do_cop (CActivate (nn sid, nn k, ok = "1", obs i)) in emit (show_out_dp o)
               | "S" :: sid :: k :: mk :: ip :: a :: b :: rest ->
                 let ok = (match rest with [x] -> x = "1" | _ -> true) in
-                let (s', o) = cstep v c !s (CSynced (nn sid, nn k, nn mk, blk ip a b, ok, obs i)) in s := s'; emit (show_out_dp o)
+                let o = do_cop (CSynced (nn sid, nn k, nn mk, blk ip a b, ok, obs i)) in emit (show_out_dp o)
               | "X" :: sid :: k :: rest ->
                 let pat = (match rest with [x] -> x | _ -> "") in
                 let dl = List.init (String.length pat) (fun j -> pat.[j] = 'o' || pat.[j] = 'O') in
-                let (s', _) = cstep v c !s (CRelease (nn sid, nn k, dl)) in s := s'; emit "ok"
+                ignore (do_cop (CRelease (nn sid, nn k, dl))); emit "ok"
               | "P" :: sid :: mk :: ip :: a :: b :: rest ->
                 let bulk = (match rest with [x] -> nn x | _ -> N0) in
-                let (s', o) = cstep v c !s (CRestorePresent (nn sid, nn mk, blk ip a b, bulk, obs i)) in s := s'; emit (show_out_dp o)
-              | ["C"] -> let (s', _) = cstep v c !s CComplete in s := s'; emit "ok"
+                let o = do_cop (CRestorePresent (nn sid, nn mk, blk ip a b, bulk, obs i)) in emit (show_out_dp o)
+              | ["C"] -> ignore (do_cop CComplete); emit "ok"
               | ["L"; sid; k] ->
-                let (s', o) = cstep v c !s (CActivateLate (nn sid, nn k, obs i)) in s := s'; emit (show_out_dp o)
-              | ["K"; sid; ok] -> let (s', _) = cstep v c !s (CAddComplete (nn sid, ok = "1")) in s := s'; emit "ok"
+                let o = do_cop (CActivateLate (nn sid, nn k, obs i)) in emit (show_out_dp o)
+              | ["K"; sid; ok] -> ignore (do_cop (CAddComplete (nn sid, ok = "1"))); emit "ok"
               | ["D"; sid; mk; ip; a; b] ->
-                let (s', _) = cstep v c !s (CRestoreDegraded (nn sid, nn mk, blk ip a b)) in s := s'; emit "nodp"
+                ignore (do_cop (CRestoreDegraded (nn sid, nn mk, blk ip a b))); emit "nodp"
               | ["d"] ->
                 let sess = List.sort compare (List.map int_of_n !s.cp_sess) in
                 let sess = if sess = [] then "-" else String.concat "," (List.map string_of_int sess) in
                 emit (Printf.sprintf "%s sess=%s rev=%d/%d" (dump c !s.cp_pool) sess
                         (List.length !s.cp_rev.r_byblock) (List.length !s.cp_rev.r_byip))
               | ["w"; lo; hi] -> emit (sweep !s (int_of_string lo) (int_of_string hi))
+              | ["B"] ->
+                (* process restart: the store lists the session ids in string order *)
+                let sids = List.sort (fun a b -> compare (string_of_int a) (string_of_int b)) (List.map (fun (sid, _) -> int_of_n sid) !db) in
+                let ps = pstep v c p0 { pc_comp = !s; pc_db = !db } (PRestart (List.map ni sids)) in
+                s := ps.pc_comp; db := ps.pc_db; emit "nodp"
+              | ["b"] ->
+                (* persisted records: sid=subscriber/ip/start-end *)
+                let recs = List.sort compare (List.map (fun (sid, (k, b)) ->
+                    (int_of_n sid, Printf.sprintf "%s=%s/%s/%s-%s" (si sid) (si k) (si b.b_ip) (si b.b_start) (si b.b_end))) !db) in
+                emit ("db " ^ (if recs = [] then "-" else String.concat "," (List.map snd recs)))
               | _ -> emit "badop") ops
           end;
           if !outs = [] then "empty" else String.concat " ; " (List.rev !outs)))
